@@ -832,6 +832,15 @@ class Engine(object):
         lt = getattr(self.cfg, "local_types", None)
         if lt and fr.func is not None and isinstance(v, Z) and v.sort == "val":
             ty = lt.get((fr.func.qualname, name))
+            if ty is None:
+                # keys may name the local by its role in the function ("$list#0|pending"): pyvc.b_ctrl.role_name
+                for (qn, key), ty_ in lt.items():
+                    if qn == fr.func.qualname and key.startswith("$"):
+                        role, _, dflt = key.partition("|")
+                        from .b_ctrl import role_name
+                        if role_name(fr.func.node, role, dflt or None) == name:
+                            ty = ty_
+                            break
             if ty is not None and v.ty != ty:
                 # declared type of a local (sidecar); the value must conform (container elements are then
                 # checked at every append against the declared element type)
@@ -1560,6 +1569,16 @@ class Engine(object):
                                             self.oblige(s1, nfr, "type-invariant %s.%s" % (cn, kf), "TY",
                                                         self.ty_formula(s1, s1.get(self.heap_key(cn, kf), Val.id(selfv.t)), kty),
                                                         info={"at": "constructor exit: the field was never assigned"})
+                                        elif kc == c.name and kty in (None, "any"):
+                                            # a declared field of unconstrained type: it must at least exist when the constructor is done
+                                            oid_c = self.concrete_id(selfv.t)
+                                            def _is(rx):
+                                                rx = z3.simplify(rx) if z3.is_expr(rx) else rx
+                                                return z3.is_int_value(rx) and rx.as_long() == oid_c
+                                            assigned = any(e.meth == kf and _is(e.recv) for e in s1.trace if e.kind == "write")
+                                            self.oblige(s1, nfr, "field %s.%s is assigned by the constructor" % (cn, kf), "TY",
+                                                        z3.BoolVal(assigned or not z3.simplify(s1.get(self.heap_key(cn, kf), Val.id(selfv.t))).eq(UNSET)),
+                                                        info={"at": "constructor exit"})
                                 # ... and every monitor invariant of the new object holds before anybody can take its locks (it is assumed
                                 # at each acquire, so the constructor has to establish it)
                                 for (rc, rlf), rinv in sorted(self.cfg.region_inv.items(), key=lambda kv: (str(kv[0][0]), str(kv[0][1]))):
@@ -1818,8 +1837,11 @@ class Engine(object):
                 yield st1, ("raise", c.exc)
                 continue
             t = self.truth(st1, c)
-            self.oblige(st1, fr, "assert@%s: %s" % (fr.func.qualname.split("more_executors._impl.")[-1], self.label(s.test)[:60]),
-                        "EX", t, info={"site": self.site(fr, s)})
+            # named by position among the function's assert statements, not by source text: a renamed local must not rename the obligation
+            asserts = sorted([n for n in ast.walk(fr.func.node) if isinstance(n, ast.Assert)], key=lambda n: (n.lineno, n.col_offset))
+            k = asserts.index(s) if s in asserts else 0
+            self.oblige(st1, fr, "assert#%d@%s holds" % (k, fr.func.qualname.split("more_executors._impl.")[-1]),
+                        "EX", t, info={"site": self.site(fr, s), "assertion": self.label(s.test)[:120]})
             yield st1, None
 
     def st_Raise(self, s, st, fr):
